@@ -14,6 +14,11 @@ def clauses(c, i, m, f):
     out = []
     if c["algo"] != "F" or i["k"] != "M" or f.get("nok") != 1 or not c["n"]:
         return out
+    hl, nl = len(c["h"]), len(c["n"])
+    # inside the documented limits of the matrix path (100 KiB cells, needle 2048, haystack 65535, ~130 KiB scratch)
+    fits = hl * nl <= 102400 and hl <= 65535 and nl <= 2048 and (5 * hl + 2 * nl + 8 * (hl + 1 - nl) + (hl + 1 - nl) * nl + 16 <= 133120)
+    if c["cfg"][3] == "0" and fits and f.get("naive") is not None and i["score"] < f["naive"]:
+        out.append(("recurrence", "score %d is lower than the value %d of the two-matrix recurrence evaluated naively on the full matrix" % (i["score"], f["naive"])))
     if c["cfg"][3] == "0" and f.get("best") is not None:
         if i["score"] > f["best"]:
             out.append(("upper", "score %d exceeds the maximum %d over all alignments" % (i["score"], f["best"])))
